@@ -2,8 +2,10 @@
 (***************************************************************************)
 (* The whole command-line emulator as one state machine:                   *)
 (*                                                                         *)
-(*   Preprocess -> Refuse (ill-formed, undefined label, no start, > 64 KiB)*)
-(*              |  Load -> Run* -> Done                                    *)
+(*   Args -> NoRun (usage error, -h/-V, no file, file missing/unreadable)  *)
+(*        |  Preprocess -> Refuse (ill-formed, undefined label, no start,  *)
+(*                                 > 64 KiB)                               *)
+(*                      |  Load -> Run* -> Done                            *)
 (*                                                                         *)
 (* composed from the static semantics (Asm!WellFormed), the loader         *)
 (* (Driver!Load), the assembler tables (Driver!Compile) and the run loop   *)
@@ -16,41 +18,53 @@
 EXTENDS Driver, Asm
 
 CONSTANTS Programs,      \* the source programs explored (records data, items, interp, stdin)
+          Argvs,         \* the command lines explored (the file argument names the program's source unless it says otherwise)
           MaxRunSteps
 
-VARIABLES phase,   \* "source" | "refused" | "loaded" | "running" | "done"
-          P, d, executed
-vars == <<phase, P, d, executed>>
+VARIABLES phase,   \* "args" | "norun" | "source" | "refused" | "loaded" | "running" | "done"
+          argv, P, d, executed
+vars == <<phase, argv, P, d, executed>>
 
-Init == phase = "source" /\ P \in Programs /\ d = << >> /\ executed = 0
+\* the -i flag of a program is what its command line says
+Init == /\ phase = "args" /\ argv \in Argvs /\ P \in Programs /\ d = << >> /\ executed = 0
+        /\ (CmdLine(argv).k = "run" => P.interp = CmdLine(argv).interp)
+
+ParseArgs ==
+  /\ phase = "args"
+  /\ phase' = IF CmdLine(argv).k = "run" THEN "source" ELSE "norun"
+  /\ UNCHANGED <<argv, P, d, executed>>
 
 Acceptable(p) == WellFormed(p, Load(p).labels) /\ ~Load(p).over
 
 Refuse ==
   /\ phase = "source" /\ ~Acceptable(P)
-  /\ phase' = "refused" /\ UNCHANGED <<P, d, executed>>
+  /\ phase' = "refused" /\ UNCHANGED <<argv, P, d, executed>>
 
 LoadStep ==
   /\ phase = "source" /\ Acceptable(P)
   /\ d' = Boot(P, Compile(P), Load(P).mem)
-  /\ phase' = "loaded" /\ UNCHANGED <<P, executed>>
+  /\ phase' = "loaded" /\ UNCHANGED <<argv, P, executed>>
 
 RunStep ==
   /\ phase \in {"loaded", "running"} /\ d.phase # "done" /\ executed < MaxRunSteps
   /\ \E d2 \in Successors(P, Compile(P), Load(P), d) :
        /\ d' = d2
        /\ executed' = IF d.phase = "invoke" THEN executed + 1 ELSE executed
-  /\ phase' = "running" /\ UNCHANGED P
+  /\ phase' = "running" /\ UNCHANGED <<argv, P>>
 
 Finish ==
   /\ phase \in {"loaded", "running"} /\ d.phase = "done"
-  /\ phase' = "done" /\ UNCHANGED <<P, d, executed>>
+  /\ phase' = "done" /\ UNCHANGED <<argv, P, d, executed>>
 
-Next == Refuse \/ LoadStep \/ RunStep \/ Finish
+Next == ParseArgs \/ Refuse \/ LoadStep \/ RunStep \/ Finish
 Spec == Init /\ [][Next]_vars /\ WF_vars(Next)
 
 \* C14: nothing of a program that must be refused is ever executed, and it is refused
-NothingOfARefusedProgramRuns == (~Acceptable(P)) => executed = 0 /\ phase \in {"source", "refused"}
+NothingOfARefusedProgramRuns == (~Acceptable(P)) => executed = 0 /\ phase \in {"args", "norun", "source", "refused"}
+\* a command line that names no readable source file (or asks for help, or is refused) runs nothing
+NothingRunsWithoutASource == CmdLine(argv).k # "run" => executed = 0 /\ phase \in {"args", "norun"}
+\* single-stepping from the first instruction on is exactly what -i / --interpreted asks for, wherever it stands
+InterpIffFlag == phase \notin {"args", "norun"} => (P.interp <=> \E j \in 1 .. Len(argv) : argv[j].k = "flag" /\ argv[j].name \in InterpFlags)
 \* C12 / C08: the run starts with DS = 0, FLAGS = F000h, CS = FFFFh, on the loaded image, at `start`
 StartsAsSpecified ==
   phase = "loaded" =>
@@ -59,5 +73,5 @@ StartsAsSpecified ==
 \* the index never leaves the instruction list
 IndexInRange == phase \in {"loaded", "running", "done"} => d.idx \in 0 .. Len(Compile(P).code)
 \* C20 / C15: every run ends (refused, or done, or cut by the exploration bound)
-Ends == <>(phase \in {"refused", "done"} \/ executed >= MaxRunSteps)
+Ends == <>(phase \in {"norun", "refused", "done"} \/ executed >= MaxRunSteps)
 =============================================================================
